@@ -1044,6 +1044,35 @@ fn on_crash(rep: &mut Report, seed: u64, tiername: &str, index: u64, ended: &End
         );
         return;
     }
+    let panic_note: Vec<String> = rep.notes.iter().filter(|n| n.starts_with("worker panicked")).cloned().collect();
+    // The Lean driver is a separate process; when IT dies (killed from outside, out of memory) the
+    // harness panics in `Driver::ask`. That says nothing about roto: re-run the case once in a fresh
+    // worker with a fresh driver and judge that run instead.
+    let driver_died = !panic_note.is_empty()
+        && panic_note.iter().all(|n| n.contains("Lean driver closed its output") || n.contains("driver stdin") || n.contains("driver stdout") || n.contains("driver flush") || n.contains("a scoped thread panicked"))
+        && panic_note.iter().any(|n| n.contains("driver"));
+    if driver_died && std::env::var("C12_NO_RERUN").is_err() {
+        let (seed_s, idx_s) = (seed.to_string(), index.to_string());
+        let (ended2, out) = worker::run_worker_keep_stdout(&["stress", &seed_s, tiername, &idx_s, "1"], Duration::from_secs(900));
+        rep.notes.retain(|n| !n.starts_with("worker panicked"));
+        rep.notes.push(format!("stress case {index}: the Lean driver process died ({}); the case was run again with a fresh driver", panic_note.join(" | ")));
+        if let Some(r) = Report::parse_stdout(&out) {
+            rep.merge_json(&r);
+        }
+        if matches!(ended2, Ended::Exit(0, _)) {
+            return;
+        }
+        return on_crash_final(rep, seed, tiername, index, &ended2);
+    }
+    on_crash_final(rep, seed, tiername, index, ended)
+}
+
+fn on_crash_final(rep: &mut Report, seed: u64, tiername: &str, index: u64, ended: &Ended) {
+    let how = match ended {
+        Ended::Signal(s, _) => format!("signal {s}"),
+        Ended::Exit(c, _) => format!("exit {c}"),
+        Ended::Timeout => "timeout".to_string(),
+    };
     let panic_note: Vec<&String> = rep.notes.iter().filter(|n| n.starts_with("worker panicked")).collect();
     rep.violation(
         "a process running concurrent calls / compilations / drops died or hung",
